@@ -255,12 +255,10 @@ def gen_tod(tier):
                 continue
             yield {'pts': pts, 'kind': 'series'}
     else:
-        # one day only, and all subsets of day 1 against a full day 2
+        # one day only
         for r in range(1, 7):
             for hs in itertools.combinations(range(6), r):
                 yield {'pts': list(hs), 'kind': 'series'}
-                if r < 6:
-                    yield {'pts': list(hs) + list(range(6, 12)), 'kind': 'series'}
 
 
 def check_tod(case):
@@ -316,15 +314,17 @@ PATS_T2 = ['111111', '000000', '101010', '010101', '000111', '111000', '110011',
 PATS_T3 = ['111111', '000000', '101010', '000111', '111000']
 PATS_T4 = ['111111', '000000', '101010']
 POS_Q = [0, 1, 4, 5, 8, 9, 11, 12]
+POS_Q3 = [0, 1, 4, 5, 8, 11, 12]
 POS_T = list(range(2 * NDAYS + 1))
 
 
 def gen_stitch(tier):
-    plan = [(2, PATS_Q2, POS_Q), (3, PATS_Q3, POS_Q)] if tier == 'quick' else [(2, PATS_T2, POS_T), (3, PATS_T3, POS_T), (4, PATS_T4, POS_Q)]
+    """one case = k patterns + all bound positions but the last one (check_stitch loops over the last bound, the direction, the spelling and n)"""
+    plan = [(2, PATS_Q2, POS_Q), (3, PATS_Q3, POS_Q3)] if tier == 'quick' else [(2, PATS_T2, POS_T), (3, PATS_T3, POS_T), (4, PATS_T4, POS_Q3)]
     for k, pats, pos in plan:
         for ps in itertools.product(pats, repeat=k):
-            for first in pos[:len(pos) - k + 1]:
-                yield {'k': k, 'pats': list(ps), 'first': first, 'pos': pos}
+            for head in itertools.combinations(pos[:-1], k - 1):
+                yield {'k': k, 'pats': list(ps), 'head': list(head), 'pos': pos}
 
 
 def _mk_series(s, pat):
@@ -352,9 +352,9 @@ def _stitch_model(models, intervals, n):
 def check_stitch(case):
     from pyg_base import df_slice, df_unslice
     out = Out()
-    k, pats, first, pos = case['k'], case['pats'], case['first'], case['pos']
+    k, pats, head, pos = case['k'], case['pats'], case['head'], case['pos']
     empties = ''.join('E' if p == '0' * NDAYS else 'F' if p == '1' * NDAYS else 'G' for p in pats)
-    rest = [p for p in pos if p > first]
+    rest = [p for p in pos if p > head[-1]]
 
     def fresh():
         return [_mk_series(s, p) for s, p in enumerate(pats)]
@@ -367,8 +367,8 @@ def check_stitch(case):
             all(s.index.equals(i0) and s.values.shape == v0.shape and bool((s.values == v0).all()) and s.dtype == float
                 for s, (i0, v0) in zip(series, snaps))
 
-    for tail in itertools.combinations(rest, k - 1):
-        P = [first] + list(tail)                       # strictly increasing bound positions
+    for lastp in rest:
+        P = list(head) + [lastp]                       # strictly increasing bound positions
         B = [_pos_time(p) for p in P]
         # a lower-bound list for the "both" spelling with a gap after every switch: (lb[i], ub[i]] are disjoint and ordered
         G = [_pos_time(max(P[0] - 3, 0))] + [_pos_time(min(P[i - 1] + 1, P[i])) for i in range(1, k)]
@@ -416,7 +416,7 @@ def check_stitch(case):
                     if switches >= 2:
                         out.nontrivial('%s|%s|%s|%d' % (P, direction, mode, n))
                     # ---- the inverse
-                    if ok and mode == 'ub' and n >= 2:
+                    if ok and mode == 'ub' and n >= 2 and direction == 'inc':
                         out.sub()
                         _check_unslice(out, df_slice, df_unslice, res, B, n, label, dict(sig, rows=min(len(exp_t), 1)))
                         out.cls('unslice')
@@ -426,7 +426,7 @@ def check_stitch(case):
 def _dl(xs):
     if xs is None:
         return 'None'
-    return '[%s]' % ', '.join('None' if x is None else x.strftime('%d.%Hh') for x in xs)
+    return '[%s]' % ', '.join('None' if x is None else x.strftime('%m-%d %Hh') for x in xs)
 
 
 def _compare_stitch(out, res, exp_t, exp_r, n, last, label, sig):
@@ -495,7 +495,7 @@ def _check_unslice(out, df_slice, df_unslice, frame, B, n, label, sig):
     if not (frame.index.equals(idx0) and frame.values.shape == val0.shape and _same_rows(frame.values.tolist(), val0.tolist())):
         out.viol('unslice-argument-modified', '%s changed the frame' % ulabel, **sig)
         return
-    shown = '{%s}' % ', '.join('%s: %s' % (b.strftime('%d.%Hh'), _show(p)) for b, p in zip(B, parts))
+    shown = '{%s}' % ', '.join('%s: %s' % (b.strftime('%m-%d %Hh'), _show(p)) for b, p in zip(B, parts))
     try:
         again = df_slice(list(parts), ub=list(B), n=n)
         out.call()
@@ -518,10 +518,10 @@ def _check_unslice(out, df_slice, df_unslice, frame, B, n, label, sig):
 def suites(tier, seed):
     N = 6 if tier == 'quick' else 7
     if tier == 'quick':
-        splan = 'k=2: %d patterns per series, k=3: %d patterns, bound positions %s' % (len(PATS_Q2), len(PATS_Q3), POS_Q)
+        splan = 'k=2: %d patterns per series, k=3: %d patterns, bound positions %s resp. %s' % (len(PATS_Q2), len(PATS_Q3), POS_Q, POS_Q3)
     else:
         splan = 'k=2: %d patterns per series, k=3: %d patterns, all 13 bound positions; k=4: %d patterns, bound positions %s' % (
-            len(PATS_T2), len(PATS_T3), len(PATS_T4), POS_Q)
+            len(PATS_T2), len(PATS_T3), len(PATS_T4), POS_Q3)
     return [
         Suite('slice', lambda: gen_slice(N), check_slice,
               rule='every subset of %d consecutive days as float Series and as 2-column frame x lb, ub in {None, before, on each day, midday between, after}^2 '
@@ -531,11 +531,11 @@ def suites(tier, seed):
               rule=('subsets of a 2-day x 6-hour grid (%s) x lb, ub in {None, 00:00, 02:00 .. 22:00}^2 as datetime.time x 4 brackets; '
                     'non-trivial = the window wraps (lb > ub) or a bound equals a time of day present in the index') % (
                   'all 4096 subsets as Series, the 64 day-symmetric ones also as frame' if tier == 'thorough' else
-                  'the 64 subsets of hours on both days as Series and frame, on one day only, and against a full second day'),
+                  'the 64 subsets of hours on both days as Series and frame, and on one day only'),
               bounds=dict(hours=6, days=2, time_bounds=len(TBOUNDS))),
         Suite('stitch', lambda: gen_stitch(tier), check_stitch,
               rule='k series on a 6-day grid, each full/empty/with gaps (%s) x every strictly increasing k-list of bound positions, given increasing or '
                    'decreasing, as ub list / lb list / both lists (contiguous and with gaps) x n in 1..k (decreasing: n in {1,k}); df_unslice + re-stitch '
-                   'for every n >= 2 ub-list result; non-trivial = the expected result takes rows from at least two series' % splan,
+                   'for every n >= 2 result of an increasing ub list; non-trivial = the expected result takes rows from at least two series' % splan,
               bounds=dict(days=NDAYS, k_max=3 if tier == 'quick' else 4)),
     ]
